@@ -102,6 +102,46 @@ func errorSinks(v ssa.Value) []errSink {
 				cc := x.Common()
 				name := calleeName(cc)
 				sinks = append(sinks, errSink{"arg:" + name, x})
+				// handed to a helper of the module (an extracted tail, a generic await): what the helper does with its
+				// parameter — and when it returns it, what the caller does with the helper's result
+				if callee := cc.StaticCallee(); callee != nil && callee.Blocks != nil && strings.HasPrefix(pkgPathOf(callee), modPath) && !callsNoReturn(x) && errFlowDepth < 3 {
+					errFlowDepth++
+					for i, a := range cc.Args {
+						if a != v || i >= len(callee.Params) {
+							continue
+						}
+						for _, k2 := range errorSinks(callee.Params[i]) {
+							if strings.HasPrefix(k2.Kind, "arg:") {
+								sinks = append(sinks, k2) // what the helper hands it to is what the caller hands it to
+							}
+							switch k2.Kind {
+							case "panic", "send":
+								sinks = append(sinks, errSink{k2.Kind, x})
+							case "return":
+								ret := k2.In.(*ssa.Return)
+								call, isCall := x.(*ssa.Call)
+								if !isCall {
+									continue
+								}
+								for ri, rv := range ret.Results {
+									if !flowsFrom(rv, callee.Params[i]) {
+										continue
+									}
+									if len(ret.Results) == 1 {
+										follow(call)
+									} else {
+										for _, r3 := range *call.Referrers() {
+											if ex, isEx := r3.(*ssa.Extract); isEx && ex.Index == ri {
+												follow(ex)
+											}
+										}
+									}
+								}
+							}
+						}
+					}
+					errFlowDepth--
+				}
 				// handed to a helper that never returns and panics with what it was handed (fatal(err, msg))
 				if callsNoReturn(x) {
 					if callee := cc.StaticCallee(); callee != nil {
@@ -325,4 +365,57 @@ func deadBlock(b *ssa.BasicBlock) bool {
 		}
 	}
 	return false
+}
+
+var errFlowDepth int
+
+func pkgPathOf(f *ssa.Function) string {
+	for g := f; g != nil; g = g.Parent() {
+		if g.Pkg != nil {
+			return g.Pkg.Pkg.Path()
+		}
+		if o := g.Origin(); o != nil && o.Pkg != nil {
+			return o.Pkg.Pkg.Path()
+		}
+	}
+	return ""
+}
+
+// flowsFrom: v is p, or a phi / conversion / single-cell copy of it.
+func flowsFrom(v ssa.Value, p ssa.Value) bool {
+	seen := map[ssa.Value]bool{}
+	var rec func(x ssa.Value) bool
+	rec = func(x ssa.Value) bool {
+		if x == p {
+			return true
+		}
+		if seen[x] {
+			return false
+		}
+		seen[x] = true
+		switch y := x.(type) {
+		case *ssa.Phi:
+			for _, e := range y.Edges {
+				if rec(e) {
+					return true
+				}
+			}
+		case *ssa.MakeInterface:
+			return rec(y.X)
+		case *ssa.ChangeInterface:
+			return rec(y.X)
+		case *ssa.ChangeType:
+			return rec(y.X)
+		case *ssa.UnOp:
+			if al, ok := y.X.(*ssa.Alloc); ok && y.Op == token.MUL {
+				for _, r := range *al.Referrers() {
+					if st, isSt := r.(*ssa.Store); isSt && st.Addr == ssa.Value(al) && rec(st.Val) {
+						return true
+					}
+				}
+			}
+		}
+		return false
+	}
+	return rec(v)
 }
